@@ -160,6 +160,14 @@ def c05_power_kind():
     return _differs('a::1;a^-2', ("i", 1)) or _differs('a::4.0;a^2', ("i", 16))
 
 
+def c05_divide_numpy_dividend():
+    from klongpy.core import KLONG_UNDEFINED
+    try:
+        return _K()('a::0;v::[0 0];(+/v)%a') is not KLONG_UNDEFINED
+    except Exception:
+        return True
+
+
 def c05_divide_numpy_zero():
     from klongpy.core import KLONG_UNDEFINED
     try:
@@ -343,6 +351,7 @@ PROBES = {
     "C04/parse-cache-skips-module-switch": c04_module_cache,
     "C05/compiled-code-run-on-other-kinds": c05_compiled_kinds, "C05/compiled-reduce-scan-shortcuts": c05_reduce_scan,
     "C05/compiled-power-kind": c05_power_kind, "C05/compiled-divide-numpy-scalar-zero": c05_divide_numpy_zero,
+    "C05/compiled-divide-numpy-scalar-dividend": c05_divide_numpy_dividend,
     "C07/numeric-grad-perturbs-caller-array": c07_grad_in_place,
     "C09/rebind-callable-unwrapped": c09_rebind_callable, "C09/wrapper-ragged-list-argument": c09_wrapper_ragged,
     "C09/arity-under-monadic-operator": c09_monadic_arity,
